@@ -1,9 +1,12 @@
 #!/bin/bash
-# usage: tools/confirm_mutant.sh <dir with patch.diff demo.cpp>   (uses scratch worktree /tmp/confirm_wt)
+# usage: [CONFIRM_SLOT=n] [CONFIRM_DEMO_FLAGS="-fsanitize=thread -g"] tools/confirm_mutant.sh <dir with patch.diff demo.cpp>
+# (uses scratch worktree /tmp/confirm_wt$CONFIRM_SLOT; several slots may run at once)
 # Confirms independently: patch applies to /repo HEAD, builds, existing suite passes, demo exits 0 without / non-zero with.
 set -u
 D=$1
-WT=/tmp/confirm_wt
+SLOT=${CONFIRM_SLOT:-}
+WT=/tmp/confirm_wt$SLOT
+XF=${CONFIRM_DEMO_FLAGS:-}
 J=${CONFIRM_JOBS:-8}
 if [ ! -d $WT ]; then git -C /repo worktree add -q --detach $WT HEAD || exit 2; fi
 cd $WT || exit 2
@@ -13,17 +16,17 @@ OUT=$D/confirm.txt
 : > $OUT
 echo "head=$(git rev-parse --short HEAD)" >> $OUT
 # demo on original
-g++ -std=c++17 -O1 -pthread -fno-access-control -I$WT/include $D/demo.cpp -o /tmp/confirm_demo_orig >> $OUT.build 2>&1
-( cd /tmp && timeout 300 /tmp/confirm_demo_orig > /tmp/confirm_demo_orig.out 2>&1 ); echo "demo_original_rc=$?" >> $OUT
+g++ -std=c++17 -O1 -pthread -fno-access-control $XF -I$WT/include $D/demo.cpp -o /tmp/confirm_demo_orig$SLOT >> $OUT.build 2>&1
+( cd /tmp && timeout 300 /tmp/confirm_demo_orig$SLOT > /tmp/confirm_demo_orig$SLOT.out 2>&1 ); echo "demo_original_rc=$?" >> $OUT
 if git apply --check $D/patch.diff 2>/dev/null; then git apply $D/patch.diff; else git apply -3 $D/patch.diff >/dev/null 2>&1 || { echo "apply=FAILED" >> $OUT; exit 3; }; fi
 echo "apply=ok" >> $OUT
-g++ -std=c++17 -O1 -pthread -fno-access-control -I$WT/include $D/demo.cpp -o /tmp/confirm_demo_mut >> $OUT.build 2>&1
-( cd /tmp && timeout 300 /tmp/confirm_demo_mut > /tmp/confirm_demo_mut.out 2>&1 ); echo "demo_mutated_rc=$?" >> $OUT
-tail -3 /tmp/confirm_demo_mut.out | cut -c1-300 >> $OUT
+g++ -std=c++17 -O1 -pthread -fno-access-control $XF -I$WT/include $D/demo.cpp -o /tmp/confirm_demo_mut$SLOT >> $OUT.build 2>&1
+( cd /tmp && timeout 300 /tmp/confirm_demo_mut$SLOT > /tmp/confirm_demo_mut$SLOT.out 2>&1 ); echo "demo_mutated_rc=$?" >> $OUT
+tail -3 /tmp/confirm_demo_mut$SLOT.out | cut -c1-300 >> $OUT
 if [ ! -d $WT/_build ]; then cmake -G Ninja -S $WT -B $WT/_build -DCMAKE_BUILD_TYPE=RelWithDebInfo -DQUILL_BUILD_TESTS=ON > /dev/null 2>&1; fi
 cmake --build $WT/_build -j$J > $OUT.suitebuild 2>&1; echo "suite_build_rc=$?" >> $OUT
 ctest --test-dir $WT/_build -j$J --timeout 300 -E unbounded_unlimited_queue > $OUT.ctest 2>&1; echo "suite_rc=$?" >> $OUT
 grep "tests passed" $OUT.ctest >> $OUT
 git checkout -q -- . ; git reset -q --hard
-rm -f /tmp/confirm_demo_orig /tmp/confirm_demo_mut
+rm -f /tmp/confirm_demo_orig$SLOT /tmp/confirm_demo_mut$SLOT
 cat $OUT
